@@ -34,6 +34,9 @@ type c17Case struct {
 	ExtraClose int     `json:"extra_sequential_closes"`
 	StartSeq   uint32  `json:"start_seq"`
 	Seed       uint64  `json:"seed"`
+	// CloseSendFail: the transport refuses every send made by Close (the PID clear): the socket must
+	// still be closed exactly once
+	CloseSendFail bool `json:"transport_refuses_sends_during_close,omitempty"`
 }
 
 func (k *c17Case) String() string {
@@ -52,6 +55,9 @@ func (k *c17Case) String() string {
 		sb.WriteString(" ")
 	}
 	fmt.Fprintf(&sb, "| close x%d concurrently + %d more", k.Closers, k.ExtraClose)
+	if k.CloseSendFail {
+		sb.WriteString(" (sends refused during Close)")
+	}
 	return sb.String()
 }
 
@@ -263,6 +269,9 @@ func c17Check(c *mon.Ctx, k *c17Case) {
 	if closers < 1 {
 		closers = 1
 	}
+	if k.CloseSendFail {
+		sim.SendErr = syscall.ENOBUFS
+	}
 	errs := make([]error, closers)
 	var wg sync.WaitGroup
 	start := make(chan struct{})
@@ -285,6 +294,14 @@ func c17Check(c *mon.Ctx, k *c17Case) {
 	c.Add("close_calls", int64(closers+k.ExtraClose))
 	if sim.NClose != 1 {
 		fail("socket-close-count", "the socket was closed %d times by %d concurrent + %d later Close calls (exactly once)", sim.NClose, closers, k.ExtraClose)
+		return
+	}
+	if k.CloseSendFail {
+		// the PID clear could not be sent (Close may report that); nothing reached the kernel
+		c.Add("closes_with_refused_sends", 1)
+		if len(sim.Sent) != sent0 {
+			fail("sent-although-refused", "the transport refused every send during Close, yet %d requests were recorded", len(sim.Sent)-sent0)
+		}
 		return
 	}
 	for _, e := range errs {
@@ -318,7 +335,7 @@ func c17Check(c *mon.Ctx, k *c17Case) {
 }
 
 func c17Gen(r *mon.Rand, withK4 bool) *c17Case {
-	k := &c17Case{StartSeq: mon.Pick(r, []uint32{1, 100, 0xFFFFFFF0, 0x7FFFFFFE}), Seed: r.Uint64(), Closers: mon.Pick(r, []int{1, 1, 2, 4, 8}), ExtraClose: r.Intn(5)}
+	k := &c17Case{StartSeq: mon.Pick(r, []uint32{1, 100, 0xFFFFFFF0, 0x7FFFFFFE}), Seed: r.Uint64(), Closers: mon.Pick(r, []int{1, 1, 2, 4, 8}), ExtraClose: r.Intn(5), CloseSendFail: r.Chance(1, 8)}
 	n := r.Range(1, 14)
 	burst := r.Chance(1, 12) // a long run of NoWait requests (dozens of outstanding ACKs) before waiting
 	if burst {
